@@ -1,9 +1,13 @@
 CONSTANTS
- C = {"ca", "cb", "cc"}
+ NC = 3
  MaxOps = 4
+ MaxSupers = 2
+ Thin = 1
+ EmitFrom = 0
 INIT Init
 NEXT Next
 VIEW View
 INVARIANT PrecOK
+INVARIANT IsaOK
 ACTION_CONSTRAINT Emit
 CHECK_DEADLOCK FALSE
